@@ -1,6 +1,7 @@
 package sync
 
 import (
+	"bytes"
 	"context"
 	"errors"
 	"fmt"
@@ -65,6 +66,17 @@ func (s *syncStore[H]) Append(ctx context.Context, headers ...H) error {
 	//	However, Syncer has yet to be refactored to not assume those invariants and until then
 	//	this method is a shim that allows using store with old assumptions.
 	//  To be reworked by bsync.
+	// the current head may be handed in again: a network head is learned via gossip and via Head()
+	// concurrently with the sync loop applying it from the pending set. It is stored already,
+	// so drop it instead of failing the whole append (and the sync attempt) as non-adjacent.
+	for len(headers) > 0 && headers[0].Height() == head.Height() &&
+		bytes.Equal(headers[0].Hash(), head.Hash()) {
+		headers = headers[1:]
+	}
+	if len(headers) == 0 {
+		return nil
+	}
+
 	var newHead *H
 	if headers[0].Height() >= head.Height() {
 		for _, h := range headers {
